@@ -31,8 +31,8 @@ RULE = ("failure kinds {wrong output, exception in the doctest, in a module func
 ASSUMPTIONS = [
     "SystemExit / KeyboardInterrupt are not faults of this property (C12 covers them)",
     "the failing line is identified by a unique marker; for code called from the doctest it is the calling doctest line",
-    "a construct accepted by ast.parse but rejected by compile() escapes on_error='return' (finding F4): classified by "
-    "that mechanism, every other escape is a violation",
+    "a construct accepted by ast.parse but rejected by compile() (finding F4, repaired) is a fault like any other: the "
+    "run returns failed, the report names SyntaxError and the line",
 ]
 NSHARDS = {'quick': 16, 'thorough': 16}
 
@@ -48,6 +48,10 @@ KINDS = {
     'compile_return': (['>>> return 5  # FAILMARK'], 'SyntaxError'),
     'compile_break': (['>>> break  # FAILMARK'], 'SyntaxError'),
     'compile_dupargs': (['>>> def dd(a, a): pass  # FAILMARK'], 'SyntaxError'),
+    'compile_yield': (['>>> yield 5  # FAILMARK'], 'SyntaxError'),
+    'compile_nonlocal': (['>>> def nl():', '...     xx = 1', '...     nonlocal xx  # FAILMARK'], 'SyntaxError'),
+    'compile_await_in_def': (['>>> def aw():', '...     return 1', '>>> def aw2():', '...     await aw()  # FAILMARK'],
+                             'SyntaxError'),
     'bad_repr': (['>>> class R:', '...     def __repr__(self):', '...         raise RuntimeError("norepr")',
                   '>>> R()  # FAILMARK', 'something'], None),
     'bad_directive': (['>>> x = 1  # xdoctest: +REQUIRES(notatag) FAILMARK'], 'Exception'),
@@ -77,9 +81,9 @@ VERBOSITIES = [0, 1, 2, 3]
 
 
 def required_cells(tier):
-    return (['kind:' + k for k in KIND_NAMES if not k.startswith('compile_')] +
+    return (['kind:' + k for k in KIND_NAMES] +
             ['pos:' + p for p in POSITIONS] + ['shape:' + s for s in SHAPES] + ['verbose:%d' % v for v in VERBOSITIES] +
-            ['runner:DocTest.run', 'runner:doctest_module', 'runner:cli', 'rendered', 'f4-probe'])
+            ['runner:DocTest.run', 'runner:doctest_module', 'runner:cli', 'rendered', 'compile-only-fault'])
 
 
 def shape_lines(rng, shape):
@@ -294,8 +298,8 @@ def check_case(ctx, idx, kind, pos, shape, verbose, ctxno, cli=False):
             if ctx.shard == 0:
                 ctx.sample({'fault': kind, 'pos': pos, 'shape': shape, 'verbose': verbose, 'module_source': src[:1200],
                             'module_run': {k: v for k, v in (rs or {}).items() if k.startswith('n_')}}, limit=2)
-        elif compile_only:
-            ctx.cell('f4-probe')
+        if ok and compile_only:
+            ctx.cell('compile-only-fault')
     finally:
         try:
             os.unlink(path)
@@ -326,13 +330,6 @@ def replay(case, ctx):
 
 
 def classify(v):
-    # F4 by mechanism: the failing part passes ast.parse and fails compile(); the SyntaxError escapes the run loop
-    c = v.get('case', {})
-    if c.get('compile_only'):
-        if v.get('mechanism') in ('run-raised', 'module-run-raised') and v.get('exc') == 'SyntaxError':
-            return 'compile-only-syntax-error'
-        if v.get('mechanism') == 'cli-aborted' and v.get('traceback'):
-            return 'compile-only-syntax-error'
     return None
 
 
